@@ -24,7 +24,7 @@ from vkit import codec, soup, tspec  # noqa: E402
 PROP = "C06"
 DEBUG = [DebugTrail.DISABLE, DebugTrail.FIRST, DebugTrail.ALL]
 NAMES = ["DISABLE", "FIRST", "ALL"]
-GEN = tspec.TypeGen(max_depth=3, dumpable_unions=False, disjoint_unions=False)
+GEN = tspec.TypeGen(max_depth=3, dumpable_unions=False, disjoint_unions=False, unhashable_set_elems=True)
 GEN_NEAR = tspec.TypeGen(max_depth=3)
 
 
@@ -75,7 +75,13 @@ def st_case(draw):
         datum, ops = draw(soup.st_near_valid(t))
     else:
         t = draw(GEN.strategy())
-        datum, ops = draw(soup.st_soup()), ["soup"]
+        if tspec.has_set_node(t) and tspec.near_valid_possible(t) and draw(st.booleans()):
+            # aimed data for sets, also for sets whose elements load to unhashable values: a near-valid dump of the
+            # same type with lists in place of the sets
+            datum, ops = draw(soup.st_near_valid(tspec.listify_sets(t)))
+            ops = ["listified_sets", *ops]
+        else:
+            datum, ops = draw(soup.st_soup()), ["soup"]
     provs = draw(st.lists(st.sampled_from(PROVS), max_size=2, unique=True)) if not near and draw(st.integers(0, 3)) == 0 else []
     layouts = {}
     for n in model_names(t):
